@@ -367,6 +367,36 @@ class SymX:
             return [(s2, t)]
         return None
 
+    def fold_as_loop(self, target, vals, s, e):
+        """`it.fold(init, |acc, x| body)` is `let mut acc = init; for x in it { acc = body }; acc`; `it.for_each(|x| body)` is `for x in it { body }`:
+        the same <for> trace entry (nested path set, phi for the carried value) as the loop statement."""
+        name = target.split("::")[-1]
+        if not target.startswith("std::iter::Iterator::") or name not in ("fold", "for_each"):
+            return None
+        clo = vals[-1]
+        if not (isinstance(clo, tuple) and clo[0] == "closure") or self.depth >= 3:
+            return None
+        params = clo[1].get("params", [])
+        if (name == "fold" and (len(vals) != 3 or len(params) != 2)) or (name == "for_each" and (len(vals) != 2 or len(params) != 1)):
+            return None
+        itv = vals[0]
+        sub = SymX(self.body, self.macros, self.inline, self.depth + 1)
+        s_body = St(env=dict(clo[2]) if len(clo) > 2 else dict(s.env))
+        if name == "fold":
+            sub.bind(params[0], vals[1], s_body)
+            sub.bind(params[1], ("elem", itv), s_body)
+        else:
+            sub.bind(params[0], ("elem", itv), s_body)
+        body_outs = sub.ev(clo[1]["body"], s_body)
+        body_paths = [Path(bs, "fall", bv) for bs, bv in body_outs] + [Path(p.env and St(dict(p.env), p.conds, p.trace) or St(), "fall", p.ret) for p in sub.done if p.kind in ("return",)]
+        pat = params[-1]
+        node = {"paths": body_paths, "ln": e.get("ln"), "pat": pat}
+        s2 = s.fork()
+        s2.log(("call", "<for>", [itv, ("lit", show(pat))], node))
+        if name == "fold":
+            return (s2, ("phi", vals[1], [p.ret for p in body_paths], id(node)))
+        return (s2, ("unit",))
+
     def expand_combinator(self, target, vals, s, e):
         """`x.map_or_else(on_none, on_some)`, `x.map_or(default, f)`, `x.unwrap_or_else(f)`: the two arms of the match they stand for."""
         name = target.split("::")[-1]
@@ -650,6 +680,10 @@ class SymX:
                               "std::result::Result::<T, E>::as_ref", "std::result::Result::<T, E>::as_mut") and len(vals) == 1:
                     outs.append((s, vals[0]))
                     continue
+                lp = self.fold_as_loop(target, vals, s, e)
+                if lp is not None:
+                    outs.append(lp)
+                    continue
                 exp = self.expand_combinator(target, vals, s, e)
                 if exp is not None:
                     outs.extend(exp)
@@ -922,8 +956,44 @@ class SymX:
                     continue
                 sub = self._sub()
                 s_body = St(env=dict(s.env))
-                sub.bind(pat, ("elem", itv), s_body)
-                body_outs = sub.ev(body, s_body)
+                # `for x in it.filter(p)` is `for x in it { if !p(&x) { continue } .. }`, `.filter_map(f)` a match on f(x), `.map(f)` a let:
+                # the loop is recorded over the underlying iterator and the adaptor's test becomes a condition of the body paths
+                adaptors, base_it = [], itv
+                while is_call_t(base_it) and base_it[1] in ("std::iter::Iterator::filter", "std::iter::Iterator::filter_map", "std::iter::Iterator::map") and \
+                        len(base_it[2]) == 2 and isinstance(base_it[2][1], tuple) and base_it[2][1][0] == "closure":
+                    adaptors.append((base_it[1].split("::")[-1], base_it[2][1]))
+                    base_it = base_it[2][0]
+                states, skipped, okd = [(s_body, ("elem", base_it))], [], True
+                for kind, clo in reversed(adaptors):
+                    nxt = []
+                    for st_c, cur in states:
+                        res = sub.apply_fn(clo, [cur], st_c, e)
+                        if res is None:
+                            okd = False
+                            break
+                        for s2_, v in res:
+                            if kind == "filter":
+                                nxt.append((s2_.cond(("if", v, True)), cur))
+                                skipped.append(s2_.cond(("if", v, False)))
+                            elif kind == "filter_map":
+                                pn = {"k": "ptuplestruct", "path": "std::prelude::v1::Some", "pats": [{"k": "bind", "name": "v", "id": -1}]}
+                                nxt.append((s2_.cond(("match", v, "std::prelude::v1::Some(v)", True, pn, [], [])), ("proj", v, "Some.0")))
+                                skipped.append(s2_.cond(("match", v, "!std::prelude::v1::Some(v)", False, pn)))
+                            else:
+                                nxt.append((s2_, v))
+                    if not okd:
+                        break
+                    states = nxt
+                if adaptors and okd:
+                    itv = base_it
+                    body_outs = []
+                    for st_c, cur in states:
+                        sub.bind(pat, cur, st_c)
+                        body_outs.extend(sub.ev(body, st_c))
+                    sub.continues.extend((None, sk) for sk in skipped)
+                else:
+                    sub.bind(pat, ("elem", itv), s_body)
+                    body_outs = sub.ev(body, s_body)
                 body_paths = [Path(bs, "fall", bv) for bs, bv in body_outs]
                 body_paths += [Path(bs, "break", bv) for (_t, bs, bv) in sub.breaks]
                 body_paths += [Path(bs, "continue", ("unit",)) for (_t, bs) in sub.continues]
@@ -989,14 +1059,16 @@ class SymX:
         sub = self._sub()
         body_outs = sub.ev(e["body"], St(env=dict(st.env)))
         off0 = len(st.conds)
-        for p in sub.done:
-            shifted = [(t[:4] + (t[4] + off0,)) if (len(t) > 4 and isinstance(t[4], int)) else t for t in p.trace]
-            sp = St(dict(p.env), st.conds + p.conds, st.trace + shifted)
-            self.done.append(Path(sp, p.kind, p.ret))
         outs = []
         paths = [Path(bs, "fall", bv) for bs, bv in body_outs] + [Path(bs, "continue", ("unit",)) for (_t, bs) in sub.continues]
         brk = [(bs, bv) for (_t, bs, bv) in sub.breaks]
         node = {"paths": paths, "ln": e.get("ln"), "breaks": [Path(bs, "break", bv) for bs, bv in brk]}
+        for p in sub.done:
+            # leaving the function from inside the loop (`return`, `?`): the same picture as leaving the loop by `break` and returning after it -
+            # the iterations that came before are the loop node, the exit itself is written out
+            shifted = [(t[:4] + (t[4] + off0,)) if (len(t) > 4 and isinstance(t[4], int)) else t for t in p.trace]
+            sp = St(dict(p.env), st.conds + p.conds, st.trace + [("call", "<loop>", [], node, off0)] + shifted)
+            self.done.append(Path(sp, p.kind, p.ret))
         if not brk:
             s2 = st.fork()
             s2.log(("call", "<loop>", [], node))
